@@ -3,6 +3,7 @@
 import json
 import math
 import types
+from pathlib import Path
 
 from harness import cellmon, core
 from harness.props import c01
@@ -16,7 +17,9 @@ META = {
         "rigidity conditions preserves every bond length and bond angle and leaves all other atoms bit-identical. A generated obligation "
         "(vm_compute over the topology regenerated from /repo) shows the conditions for every amino-acid template (all terminal and "
         "protonation variants) x every dihedral x terminus flags, incl. 'no backbone atom is selected'. The selection model is tied to "
-        "set_reference_distance + get_moveable_names by exhaustive comparison on all templates and on every call observed in real runs. "
+        "set_reference_distance + get_moveable_names by exhaustive comparison on all templates and on every call observed in real runs, "
+        "also with residue.atoms / atom.bonds stored in reversed, alphabetical and random orders (the moved set must not depend on the storage "
+        "order; C04_moved_set_order_table_partial proves that for the model for the reversed and alphabetical orders only, not for all permutations). "
         "Debump.debump_residue is modelled (Model/Debump.v: attempt loop, pick_dihedral_angle incl. oldnum rotation, the 71-step scan with "
         "early exit, best-angle bookkeeping with the SMALL_NUMBER tie rule, final set to bestangle; scores, conflict names and the dihedral "
         "measured after each rotation are oracle inputs over an arbitrary world): proved for ALL oracle answers that the coordinates after "
@@ -46,6 +49,7 @@ THEOREMS = [
     "C04_heavy_subtree_table",
     "C04_nonvacuous",
     "C04_rank_selection_refuted",
+    "C04_moved_set_order_table_partial",
     "C04_debump_ops_are_rotations",
     "C04_debump_rigid",
     "C04_rotation_list_rigid",
@@ -72,14 +76,20 @@ Definition show_moves (nt ct : bool) : string :=
      | None => "GAP"
      | Some rk => String.concat " " (map name_of (moveable (tgraph (fst p)) rk (let '(_, _, c, _) := snd p in c))) end) pairs).
 Definition show_pairs : string := String.concat ";" (map show_pair pairs).
+Definition show_moves_on (tr : graph -> graph) (nt ct : bool) : string :=
+  String.concat ";" (map (fun p => let g := tr (tgraph (fst p)) in match ranks nm nt ct g with
+     | None => "GAP"
+     | Some rk => String.concat " " (map name_of (moveable g rk (let '(_, _, c, _) := snd p in c))) end) pairs).
 """
 
 
 # ---- (A) exhaustive template correspondence ----------------------------------
 
 
-def fake_residue(tmpl, nt, ct):
-    """A real aa.Amino instance (no __init__) carrying the template's atoms and bonds."""
+def fake_residue(tmpl, nt, ct, order=None, bond_order=None):
+    """A real aa.Amino instance (no __init__) carrying the template's atoms and bonds.
+    `order` = the order of residue.atoms (default: template order), `bond_order` = per atom the
+    order of atom.bonds (default: template order)."""
     from pdb2pqr import aa, structures
 
     r = object.__new__(aa.Amino)
@@ -88,9 +98,11 @@ def fake_residue(tmpl, nt, ct):
     r.is_n_term = nt
     r.is_c_term = ct
     r.name = tmpl.name
-    for an in tmpl.map:
-        if an in ("N+1", "C-1"):
-            continue
+    names = [an for an in tmpl.map if an not in ("N+1", "C-1")]
+    if order is not None:
+        assert sorted(order) == sorted(names)
+        names = list(order)
+    for an in names:
         a = object.__new__(structures.Atom)
         a.name = an
         a.residue = r
@@ -98,24 +110,62 @@ def fake_residue(tmpl, nt, ct):
         a.refdistance = None
         r.atoms.append(a)
         r.map[an] = a
-    for an, ta in tmpl.map.items():
-        if an not in r.map:
-            continue
-        for b in ta.bonds:
-            if b in r.map:
-                r.map[an].bonds.append(r.map[b])
+    for an in names:
+        bl = [b for b in tmpl.map[an].bonds if b in r.map]
+        if bond_order is not None and an in bond_order:
+            assert sorted(bond_order[an]) == sorted(bl)
+            bl = list(bond_order[an])
+        for b in bl:
+            r.map[an].bonds.append(r.map[b])
     return r
 
 
-def impl_moves(definition, nt, ct):
+def amino_templates(definition):
+    return [(rname, tmpl) for rname, tmpl in definition.map.items() if ("CA" in tmpl.map and "N" in tmpl.map and "C" in tmpl.map and tmpl.dihedrals)]
+
+
+def storage_order(tmpl, mode, rng=None, name_ids=None):
+    """(order of residue.atoms, order of each atom.bonds) for one template: template order, reversed,
+    alphabetical by the generated name ids (= Model.Moves.rev_graph / sort_graph), or a random permutation."""
+    names = [an for an in tmpl.map if an not in ("N+1", "C-1")]
+    bonds = {an: [b for b in tmpl.map[an].bonds if b in names] for an in names}
+    if mode == "template":
+        return names, bonds
+    if mode == "reversed":
+        return names[::-1], {an: bl[::-1] for an, bl in bonds.items()}
+    if mode == "alphabetical":
+        key = (lambda n: name_ids.get(n, 10**9)) if name_ids else (lambda n: n)
+        return sorted(names, key=key), {an: sorted(bl, key=key) for an, bl in bonds.items()}
+    names = list(names)
+    rng.shuffle(names)
+    out = {}
+    for an, bl in bonds.items():
+        bl = list(bl)
+        rng.shuffle(bl)
+        out[an] = bl
+    return names, out
+
+
+def moved_names(tmpl, nt, ct, dihedral, order=None, bond_order=None):
+    """get_moveable_names of the real code for one template dihedral under a storage order ('GAP' = ValueError)."""
+    from pdb2pqr import biomolecule as pbio
+
+    r = fake_residue(tmpl, nt, ct, order, bond_order)
+    try:
+        pbio.Biomolecule.set_reference_distance(types.SimpleNamespace(residues=[r]))
+    except ValueError:
+        return "GAP"
+    return " ".join(r.get_moveable_names(dihedral.split()[2]))
+
+
+def impl_moves(definition, nt, ct, mode="template", rng=None, name_ids=None, orders=None):
     from pdb2pqr import biomolecule as pbio
 
     out = []
     labels = []
-    for rname, tmpl in definition.map.items():
-        if not ("CA" in tmpl.map and "N" in tmpl.map and "C" in tmpl.map and tmpl.dihedrals):
-            continue
-        r = fake_residue(tmpl, nt, ct)
+    for rname, tmpl in amino_templates(definition):
+        order, bond_order = storage_order(tmpl, mode, rng, name_ids)
+        r = fake_residue(tmpl, nt, ct, order, bond_order)
         try:
             pbio.Biomolecule.set_reference_distance(types.SimpleNamespace(residues=[r]))
             gap = False
@@ -124,6 +174,8 @@ def impl_moves(definition, nt, ct):
         for d in tmpl.dihedrals:
             labels.append(f"{rname}:{' '.join(d.split())}")
             out.append("GAP" if gap else " ".join(r.get_moveable_names(d.split()[2])))
+            if orders is not None:
+                orders.append((order, bond_order))
     return labels, out
 
 
@@ -138,8 +190,16 @@ QUICK = [
     ("1BX8.pdb", ["--ff=AMBER", "--assign-only"], True),
     ("1AJJ.pdb", ["--ff=PARSE", "--nodebump", "--noopt"], True),
     ("1A1P.pdb", ["--ff=AMBER", "--nodebump", "--noopt", "--drop-water"], True),
+    # the same structures stored differently (atom order within residues; rebuilt interior atoms)
+    ("1AJJ.pdb", ["--ff=AMBER"], False, "alphabetical"),
+    ("cterm_hid.pdb", ["--ff=PARSE"], False, "alphabetical"),
+    ("1AJJ.pdb", ["--ff=AMBER"], False, "del-interior"),
 ]
 THOROUGH = QUICK + [
+    ("1BX8.pdb", ["--ff=CHARMM"], False, "alphabetical"),
+    ("1A1P.pdb", ["--ff=PARSE"], False, "alphabetical"),
+    ("cterm_hid.pdb", ["--ff=AMBER"], False, "del-interior"),
+    ("1BX8.pdb", ["--ff=AMBER"], False, "del-interior"),
     ("1K1I.pdb", ["--ff=AMBER"], False),
     ("1AFS.pdb", ["--ff=AMBER"], False),
     ("1US0.pdb", ["--ff=PARSE"], False),
@@ -171,12 +231,52 @@ def key_of_atom(a):
     return (a.chain_id, a.res_seq, a.ins_code, a.name)
 
 
-def real_run(ctx, pdb, extra):
+INTERIOR = {"ARG": "CG", "LYS": "CG", "GLU": "CG", "GLN": "CG", "LEU": "CG", "MET": "CG", "ILE": "CG1", "PHE": "CG", "TYR": "CG", "HIS": "CG", "TRP": "CG", "ASP": "CG", "ASN": "CG"}
+
+
+def transform_pdb(text, transform):
+    """The same structure written differently: 'alphabetical' = the ATOM records of every residue sorted
+    by atom name (CD before CG, CE1 before ND1, ring atoms before CG); 'del-interior' = an interior
+    side-chain heavy atom (CG / CG1) removed from every second residue that has one, so that repair_heavy
+    rebuilds it and appends it AFTER its children in residue.atoms."""
+    lines = text.splitlines()
+    out = []
+    i = 0
+    nres = 0
+    while i < len(lines):
+        ln = lines[i]
+        if not ln.startswith(("ATOM  ", "HETATM")):
+            out.append(ln)
+            i += 1
+            continue
+        key = ln[17:27]
+        j = i
+        while j < len(lines) and lines[j].startswith(("ATOM  ", "HETATM")) and lines[j][17:27] == key:
+            j += 1
+        grp = lines[i:j]
+        if transform == "alphabetical":
+            grp = sorted(grp, key=lambda l: l[12:16].strip())
+        elif transform == "del-interior":
+            victim = INTERIOR.get(ln[17:20])
+            names = [l[12:16].strip() for l in grp]
+            if victim in names and "CA" in names and "CB" in names:
+                nres += 1
+                if nres % 2 == 1:
+                    grp = [l for l in grp if l[12:16].strip() != victim]
+        out.extend(grp)
+        i = j
+    return "\n".join(out) + "\n"
+
+
+def real_run(ctx, pdb, extra, transform=None):
     from pdb2pqr import debump as pdebump, main as pmain, structures as pstruct
 
     d = ctx.scratch_dir()
     out = d / "g.pqr"
     path = core.REPO / "tests" / "data" / pdb
+    if transform:
+        path = d / f"{transform}_{pdb}"
+        path.write_text(transform_pdb((core.REPO / "tests" / "data" / pdb).read_text(), transform))
     args = pmain.build_main_parser().parse_args([*extra, str(path), str(out)])
     calls = []
     writes = {}
@@ -341,17 +441,32 @@ def geometry_oracle(ctx, pdb, extra, noop, run, definition):
 # side-chain rotations: backbone unmoved, every bond length and bond angle kept.
 
 
-def _walk_fixture():
+def _walk_fixture(variant="plain"):
+    """variant 'repaired': interior side-chain atoms (CG/CG1 of every second residue) are deleted from the
+    input and rebuilt by the real Biomolecule.repair_heavy, which appends them at the end of residue.atoms."""
+    import tempfile
+
     from pdb2pqr import aa, cells, debump
     from pdb2pqr import io as pio
     from pdb2pqr import main as pmain
 
     path = core.REPO / "tests" / "data" / "1AJJ.pdb"
     definition = pio.get_definitions()
-    pdblist, _ = pio.get_molecule(str(path))
+    if variant == "repaired":
+        with tempfile.NamedTemporaryFile("w", suffix=".pdb", delete=False) as fh:
+            fh.write(transform_pdb(path.read_text(), "del-interior"))
+        try:
+            pdblist, _ = pio.get_molecule(fh.name)
+        finally:
+            Path(fh.name).unlink()
+    else:
+        pdblist, _ = pio.get_molecule(str(path))
     bm, definition, _ = pmain.setup_molecule(pdblist, definition, None)
     bm.set_termini(neutraln=False, neutralc=False)
     bm.update_bonds()
+    if variant == "repaired":
+        bm.remove_hydrogens()
+        bm.repair_heavy()
     db = debump.Debump(bm)
     db.cells = cells.Cells(2)
     db.cells.assign_cells(bm)
@@ -714,7 +829,48 @@ def pick_ties(ctx, residues, n):
         ctx.broke("correspondence-broken", "Model.Debump constants vs pdb2pqr/config.py (DEBUMP_ANGLE_STEPS, DEBUMP_ANGLE_STEP_SIZE, DEBUMP_ANGLE_TEST_COUNT, SMALL_NUMBER)", f"code {consts} model {outs[-1]}")
 
 
-def debump_walk_case(ctx, db, res, script, conflicts0, label, ties=None):
+def apply_storage(res, storage):
+    """Re-store the residue: storage = {"atoms": [names in the new order], "bonds": {name: [permutation of
+    bond indices]}}. Returns what is needed to undo it."""
+    saved = (list(res.atoms), {id(a): list(a.bonds) for a in res.atoms})
+    by_name = {}
+    for a in res.atoms:
+        by_name.setdefault(a.name, a)
+    res.atoms[:] = [by_name[n] for n in storage["atoms"]]
+    for a in res.atoms:
+        perm = storage.get("bonds", {}).get(a.name)
+        if perm and sorted(perm) == list(range(len(a.bonds))):
+            a.bonds[:] = [a.bonds[i] for i in perm]
+    return saved
+
+
+def undo_storage(res, saved):
+    res.atoms[:] = saved[0]
+    for a in res.atoms:
+        a.bonds[:] = saved[1][id(a)]
+
+
+def random_storage(rng, res):
+    names = [a.name for a in res.atoms]
+    rng.shuffle(names)
+    bonds = {}
+    for a in res.atoms:
+        perm = list(range(len(a.bonds)))
+        rng.shuffle(perm)
+        bonds[a.name] = perm
+    return {"atoms": names, "bonds": bonds}
+
+
+def debump_walk_case(ctx, db, res, script, conflicts0, label, ties=None, storage=None, variant="plain"):
+    saved = apply_storage(res, storage) if storage else None
+    try:
+        return _debump_walk_case(ctx, db, res, script, conflicts0, label, ties, storage, variant)
+    finally:
+        if saved:
+            undo_storage(res, saved)
+
+
+def _debump_walk_case(ctx, db, res, script, conflicts0, label, ties, storage, variant):
     atoms = [a for a in res.atoms]
     before = {a.name: (a.x, a.y, a.z) for a in atoms}
     dih0 = list(res.dihedrals)
@@ -734,9 +890,11 @@ def debump_walk_case(ctx, db, res, script, conflicts0, label, ties=None):
         a.x, a.y, a.z = before[a.name]
         db.cells.add_cell(a)
     res.dihedrals[:] = dih0
-    case = {"walk": {"residue": str(res), "script": script, "conflicts0": conflicts0}, "label": label}
+    case = {"walk": {"residue": str(res), "script": script, "conflicts0": conflicts0, "storage": storage, "variant": variant}, "label": label}
     accepted = sum(1 for a in script if a["mode"] != "none")
-    ctx.evaluated(("walk", str(res), core.sha(script)), accepted >= 1 and len(script) >= 2 and any(before[n] != after[n] for n in before))
+    rebuilt = sorted(a.name for a in atoms if getattr(a, "added", False) and not a.name.startswith("H"))
+    ctx.count(f"debump-walk:residue stored {'in file order' if not storage else 'shuffled'}{', interior atom rebuilt by repair_heavy' if rebuilt else ''}")
+    ctx.evaluated(("walk", str(res), variant, core.sha(storage), core.sha(script)), accepted >= 1 and len(script) >= 2 and any(before[n] != after[n] for n in before))
     ctx.count(f"debump-walk:attempts={min(len(script), 4)}{'+' if len(script) > 4 else ''}")
     if err:
         ctx.count("debump-walk:exception")
@@ -746,40 +904,118 @@ def debump_walk_case(ctx, db, res, script, conflicts0, label, ties=None):
         if cond in seen:
             continue
         seen.add(cond)
-        ctx.fail({"site": "Debump.debump_residue", "condition": cond}, f"debump history on {res} ({len(script)} scripted attempts): {detail}", case)
+        how = (f", residue.atoms stored as {storage['atoms']}" if storage else "") + (f", {rebuilt} rebuilt by repair_heavy (stored last)" if rebuilt else "")
+        ctx.fail({"site": "Debump.debump_residue", "condition": cond}, f"debump history on {res} ({len(script)} scripted attempts{how}): {detail}", case)
     return bool(fails)
 
 
 def debump_walks(ctx, n, tie_n=400):
     """n scripted walks checked by the geometry oracle; the first tie_n are also compared with the Coq
-    model. If that comparison breaks, the geometry search continues at high volume."""
-    try:
-        bm, db, residues = _walk_fixture()
-    except Exception as e:  # noqa
-        ctx.broke("correspondence-broken", "debump walk fixture (tests/data/1AJJ.pdb through setup_molecule/Debump)", f"{type(e).__name__}: {e}")
+    model. If that comparison breaks, the geometry search continues at high volume.  About half of the
+    walks run on a residue that is STORED differently: residue.atoms and every atom.bonds shuffled, or
+    (fixture 'repaired') with an interior side-chain atom deleted from the input and rebuilt by the real
+    repair_heavy, which appends it after its children."""
+    fixtures = {}
+    for variant in ("plain", "repaired"):
+        try:
+            bm, db, residues = _walk_fixture(variant)
+            fixtures[variant] = (db, residues, [(r, s) for r, s in residues if len(s) >= 2], [(r, s) for r, s in residues if any(a.added and not a.name.startswith("H") for a in r.atoms)])
+        except Exception as e:  # noqa
+            ctx.broke("correspondence-broken", f"debump walk fixture '{variant}' (tests/data/1AJJ.pdb through setup_molecule/repair_heavy/Debump)", f"{type(e).__name__}: {e}")
+    if "plain" not in fixtures:
         return
-    multi = [(r, s) for r, s in residues if len(s) >= 2]
     ties, cases = [], []
 
     def walks(k, first):
         for w in range(first, first + k):
-            res, side = ctx.rng.choice(multi if (multi and ctx.rng.random() < 0.8) else residues)
+            u = ctx.rng.random()
+            variant = "repaired" if (u < 0.25 and "repaired" in fixtures and fixtures["repaired"][3]) else "plain"
+            db, residues, multi, rebuilt = fixtures[variant]
+            if variant == "repaired":
+                res, side = ctx.rng.choice(rebuilt)
+            else:
+                res, side = ctx.rng.choice(multi if (multi and ctx.rng.random() < 0.8) else residues)
+            storage = random_storage(ctx.rng, res) if 0.25 <= u < 0.55 else None
             script, conflicts0 = gen_script(ctx.rng, res, side)
             tied = w < tie_n
-            bad = debump_walk_case(ctx, db, res, script, conflicts0, f"#{w}", ties if tied else None)
+            bad = debump_walk_case(ctx, db, res, script, conflicts0, f"#{w}", ties if tied else None, storage, variant)
             if tied:
-                cases.append({"walk": {"residue": str(res), "script": script, "conflicts0": conflicts0}, "label": f"#{w}"})
+                cases.append({"walk": {"residue": str(res), "script": script, "conflicts0": conflicts0, "storage": storage, "variant": variant}, "label": f"#{w}"})
             if w == 0:
-                ctx.sample({"debump_walk": {"residue": str(res), "script": script, "conflicts0": conflicts0, "rigid": not bad}})
+                ctx.sample({"debump_walk": {"residue": str(res), "script": script, "conflicts0": conflicts0, "variant": variant, "storage": storage, "rigid": not bad}})
 
     walks(n, 0)
     before = len(ctx.broken)
     compare_walk_ties(ctx, ties, cases)
-    pick_ties(ctx, residues, 3000 if n > 1000 else 600)
+    pick_ties(ctx, fixtures["plain"][1], 3000 if n > 1000 else 600)
     if len(ctx.broken) > before and n < 4000:
         # the model no longer describes the code: only the model-independent search can tell whether the property fails
         walks(4000 - n, n)
         ctx.count("debump-walk:escalated-after-broken-tie", 4000 - n)
+
+
+FLAGS4 = [(False, False), (True, False), (False, True), (True, True)]
+
+
+def storage_order_correspondence(ctx, definition, mlabels, model_template_order):
+    """The moved set must not depend on how the residue is STORED (order of residue.atoms - input file
+    order, rebuilt atoms appended by repair_heavy - and of each atom.bonds).  Every template x dihedral x
+    terminus flags: (1) reversed and alphabetical order, real code vs the Coq model evaluated on
+    rev_graph / sort_graph (exact list); (2) random permutations, real code vs the model's template-order
+    result as a SET, listed in the permuted atom order.  A difference is a broken correspondence; if the
+    set the code selects is not a rigid sub-tree (independent python graph check) it is a failure with
+    the storage order as the concrete input."""
+    name_ids = json.loads((core.COQ / "Generated" / "names.json").read_text())
+    broken = False
+    nfail = 0
+
+    def differs(lab, nt, ct, mode, order, bond_order, impl, expect):
+        nonlocal broken, nfail
+        ctx.cov["correspondence_disagreements"] += 1
+        broken = True
+        case = {"template": lab, "nt": nt, "ct": ct, "moved": impl, "order": order, "bond_order": bond_order, "mode": mode}
+        if sum(x["kind"] == "correspondence-broken" for x in ctx.broken) < 4:
+            ctx.broke("correspondence-broken", "Model.Moves.moveable vs set_reference_distance+get_moveable_names under another storage order of the residue", f"{lab} nterm={nt} cterm={ct} atoms stored {mode} {order}: impl=[{impl}] expected=[{expect}]", case)
+        why = None if impl == "GAP" else py_rigid_violation(definition, lab, impl.split(), heavy_only=True)
+        if why and nfail < 6:
+            nfail += 1
+            ctx.fail({"site": "Residue.get_moveable_names", "condition": "moved-set-not-rigid", "template": lab.split(":")[0][-3:]}, f"{lab} (nterm={nt}, cterm={ct}) with residue.atoms stored as {order}: rotating [{impl}] about the dihedral's middle bond is not rigid: {why}", case)
+
+    # (1) reversed / alphabetical against the model on the re-stored graph
+    try:
+        terms = [f"show_moves_on {tr} {str(nt).lower()} {str(ct).lower()}" for tr in ("rev_graph", "sort_graph") for nt, ct in FLAGS4]
+        outs = core.run_cases("C04o", HEADER + SHOW, terms, timeout=600, chunk=2)
+    except core.CoqEvalError as e:
+        ctx.broke("correspondence-broken", "moveable sets under other storage orders: model evaluation failed", str(e)[-1500:])
+        return True
+    k = 0
+    for mode in ("reversed", "alphabetical"):
+        for nt, ct in FLAGS4:
+            orders = []
+            labels, impl = impl_moves(definition, nt, ct, mode, None, name_ids, orders)
+            model = outs[k].split(";")
+            k += 1
+            for lab, a, b, (order, bond_order) in zip(labels, impl, model, orders):
+                ctx.cov["correspondence_cases"] += 1
+                ctx.evaluated(f"tmpl:{lab}:{nt}:{ct}:{mode}", bool(a))
+                if a != b:
+                    differs(lab, nt, ct, mode, order, bond_order, a, b)
+            ctx.count(f"storage-order:{mode}", len(labels))
+    # (2) random permutations against the template-order set
+    nperm = 12 if ctx.thorough else 3
+    for p in range(nperm):
+        for (nt, ct), mstr in zip(FLAGS4, model_template_order):
+            orders = []
+            labels, impl = impl_moves(definition, nt, ct, "random", ctx.rng, None, orders)
+            model = mstr.split(";")
+            for lab, a, b, (order, bond_order) in zip(labels, impl, model, orders):
+                ctx.cov["correspondence_cases"] += 1
+                ctx.evaluated(f"tmpl:{lab}:{nt}:{ct}:perm{core.sha(order)[:8]}", bool(a))
+                want = b if b == "GAP" else " ".join(x for x in order if x in set(b.split()))
+                if a != want:
+                    differs(lab, nt, ct, "random", order, bond_order, a, want)
+            ctx.count("storage-order:random-permutation", len(labels))
+    return broken
 
 
 def call_term(c, ids):
@@ -799,7 +1035,10 @@ def run(ctx):
     sys.path.insert(0, str(core.VERIF / "gen"))
     ctx.cov["rule"] = (
         "exhaustive: every amino-acid template x dihedral x 4 terminus-flag combinations, moveable set of the real code (fake residues built from "
-        "Definition.map) vs the Coq model; every Debump.set_dihedral_angle call of real runs replayed in the model; every input heavy atom of real runs "
+        "Definition.map) vs the Coq model, in template order, reversed and alphabetical order (model evaluated on rev_graph/sort_graph, exact list) and "
+        "3 (thorough 12) random permutations of residue.atoms and of every atom.bonds (same set as the model, listed in the permuted order); real runs also on "
+        "inputs rewritten with alphabetical atom order within residues and with interior side-chain atoms (CG/CG1) deleted so that repair_heavy rebuilds and "
+        "appends them; ~30% of the debump walks on a residue whose atoms/bonds lists are shuffled, ~25% on a residue with an interior atom rebuilt by the real repair_heavy; every Debump.set_dihedral_angle call of real runs replayed in the model; every input heavy atom of real runs "
         "checked (exact for backbone/caps/no-op modes, rigid geometry otherwise). Debump walks: debump_residue on a random real residue of 1AJJ "
         "(80% with >= 2 side-chain dihedrals) with a random script of 1-10 attempts (modes none/improve/improve2/tie/zero-conflict/zero-clear at steps "
         "1,2,17,35,36,70,71, random conflict names); each walk is checked by the geometry oracle AND compared with Model.Debump.debump_residue on the "
@@ -845,12 +1084,17 @@ def run(ctx):
                         if why:
                             ctx.fail({"site": "Residue.get_moveable_names", "condition": "moved-set-not-rigid", "template": lab.split(":")[0][-3:]}, f"{lab} (nterm={nt}, cterm={ct}): rotating {a} about the dihedral's middle bond is not rigid: {why}", {"template": lab, "nt": nt, "ct": ct, "moved": a})
             ctx.sample({"template_pair": labels[5], "impl_moved": impl[5], "model_moved": model[5]})
+            if True:
+                corr_broken = storage_order_correspondence(ctx, definition, mlabels, res[1:5]) or corr_broken
     # --- (B)+(C)
     inputs = THOROUGH if (ctx.thorough or not ok or corr_broken) else QUICK
     seen_calls = {}
     real_ties = []
-    for pdb, extra, noop in inputs:
-        run_ = real_run(ctx, pdb, extra)
+    for pdb, extra, noop, *tr in inputs:
+        transform = tr[0] if tr else None
+        run_ = real_run(ctx, pdb, extra, transform)
+        if transform:
+            pdb = f"{pdb}[{transform}]"
         if run_["err"]:
             ctx.notes.append(f"{pdb} {extra}: {run_['err']}")
         ctx.count(f"real:{pdb}:set_dihedral_calls", len(run_["calls"]))
@@ -938,6 +1182,14 @@ def replay(ctx, data):
     from common import load_definition
 
     definition = load_definition()
+    if "template" in case and "order" in case:
+        rname, dih = case["template"].split(":")
+        mv = moved_names(definition.map[rname], case["nt"], case["ct"], dih, case["order"], case.get("bond_order"))
+        ref = moved_names(definition.map[rname], case["nt"], case["ct"], dih)
+        why = None if mv == "GAP" else py_rigid_violation(definition, case["template"], mv.split(), True)
+        same = set(mv.split()) == set(ref.split())
+        print(f"replay: {case['template']} atoms stored as {case['order']}: moved=[{mv}] template order: [{ref}] ->", "FAILS: " + why if why else ("differs from the template-order set" if not same else "passes"))
+        return 1 if (why or not same) else 0
     if "template" in case:
         labels, impl = impl_moves(definition, case["nt"], case["ct"])
         mv = impl[labels.index(case["template"])]
@@ -964,11 +1216,11 @@ def replay(ctx, data):
         print("replay: residue not found")
         return 1
     if "walk" in case:
-        bm, db, residues = _walk_fixture()
+        bm, db, residues = _walk_fixture(case["walk"].get("variant") or "plain")
         for res, side in residues:
             if str(res) == case["walk"]["residue"]:
                 ties = []
-                bad = debump_walk_case(ctx, db, res, case["walk"]["script"], case["walk"]["conflicts0"], "replay", ties)
+                bad = debump_walk_case(ctx, db, res, case["walk"]["script"], case["walk"]["conflicts0"], "replay", ties, case["walk"].get("storage"), case["walk"].get("variant") or "plain")
                 compare_walk_ties(ctx, ties, [case])
                 print("replay:", "FAILS" if bad else "geometry passes", [f["what"] for f in ctx.failures][:3])
                 for b in ctx.broken:
@@ -976,7 +1228,10 @@ def replay(ctx, data):
                 return 1 if (bad or ctx.broken) else 0
         print("replay: residue not found")
         return 1
-    run_ = real_run(ctx, case["pdb"], case["args"])
+    import re as _re
+
+    m = _re.match(r"(.*)\[(.*)\]$", case["pdb"])
+    run_ = real_run(ctx, m.group(1), case["args"], m.group(2)) if m else real_run(ctx, case["pdb"], case["args"])
     before = len(ctx.failures)
     geometry_oracle(ctx, case["pdb"], case["args"], any(m in case["args"] for m in ("--clean", "--assign-only")) or ("--nodebump" in case["args"] and "--noopt" in case["args"]), run_, definition)
     bad = len(ctx.failures) - before + sum(1 for s in run_["writes"] if s != "debump.Debump.set_dihedral_angle")
